@@ -181,6 +181,9 @@ func r16ctx(c *core.Ctx) {
 }
 
 func r16cred(c *core.Ctx) {
+	if !c.Once("r16cred") {
+		return
+	}
 	const R = "R16.cred"
 	c.Rule(R, "credentials: K → PermanentKeyValue, OPc → OpcValue, OP → Milenage.Op.OpValue; CreateUE passes (K, OPC, OP)")
 	fn := mustFunc(c, pTglib, "GetAuthSubscription")
